@@ -251,6 +251,23 @@ pub fn profile(name: &str, rng: &mut Rng) -> Profile {
                 allow_leak: true,
             }
         }
+        // large queues: deep heaps (>= 8 levels), positions beyond 255 / 1023
+        "huge" => {
+            let universe = 600 + rng.below(2400) as u32;
+            Profile {
+                name: "huge",
+                universe,
+                ord_lo: if rng.chance(1, 3) { 0 } else { -1_000_000 },
+                ord_hi: if rng.chance(1, 3) { 20 } else { 1_000_000 },
+                extreme_ords: rng.chance(1, 4),
+                steps: 60 + rng.below(60),
+                target: universe as usize,
+                storm: true,
+                w: single_weights(),
+                bulk_max: universe as usize,
+                allow_leak: true,
+            }
+        }
         "bulk" => {
             let universe = 4 + rng.below(200) as u32;
             Profile {
@@ -518,6 +535,18 @@ impl<'a> Gen<'a> {
     }
 
     pub fn ctor(&mut self, empty_model: &Model) -> Ctor {
+        if self.prof.name == "huge" {
+            let n = self.prof.universe as usize;
+            let mut ids: Vec<u32> = (0..n as u32).collect();
+            self.rng.shuffle(&mut ids);
+            let k = n / 2 + self.rng.below(n / 2);
+            let pairs: Vec<(u32, i64)> = ids.into_iter().take(k).map(|i| (i, self.ord())).collect();
+            return match self.rng.below(3) {
+                0 => Ctor::FromVec(pairs),
+                1 => Ctor::FromIter(pairs, Hint::Exact),
+                _ => Ctor::FromOther(pairs),
+            };
+        }
         let cap = *self.rng.pick(&[0usize, 1, 2, 7, 64, 1000]);
         match self.rng.below(14) {
             0 | 1 | 2 => Ctor::New,
